@@ -97,16 +97,20 @@ def lean_deps(mod, seen=None):
 
 def prove(ctx, spec):
     """Build the property module, audit axioms of every `theorem Cxx_*` in it. Returns (obligations, discharged, names)."""
-    mod = spec["lean_props"]
-    targets = [mod] + spec.get("lean_extra", [])
-    if spec.get("driver"):
-        targets.append(spec["driver"])
+    mods = spec["lean_props"] if isinstance(spec["lean_props"], list) else [spec["lean_props"]]
+    mod = mods[0]
+    targets = mods + spec.get("lean_extra", [])
+    for part in parts_of(spec):
+        if part.get("driver"):
+            targets.append(part["driver"])
     with LakeLock():
         rc, out = sh(["lake", "build"] + targets, cwd=LEAN, timeout=3600)
     if rc != 0:
         ctx.obligation_failures.append({"kind": "lake-build", "detail": tail(out, 60)})
         ctx.log("lake build FAILED\n" + tail(out, 40))
-    files = lean_deps(mod)
+    files = {}
+    for m_ in mods:
+        lean_deps(m_, files)
     # forbidden tokens in everything the property module depends on
     for m, path in files.items():
         body = strip_comments(open(path).read())
@@ -114,7 +118,7 @@ def prove(ctx, spec):
             if FORBIDDEN.search(line):
                 ctx.obligation_failures.append({"kind": "forbidden-token", "detail": f"{path}:{ln}: {line.strip()}"})
     # theorem names
-    propsrc = strip_comments(open(files[mod]).read()) if mod in files else ""
+    propsrc = "\n".join(strip_comments(open(files[m_]).read()) for m_ in mods if m_ in files)
     names = re.findall(r"^\s*theorem\s+(" + ctx.pid + r"_\w+)", propsrc, re.M)
     expected = spec.get("theorems")
     if expected:
@@ -125,9 +129,11 @@ def prove(ctx, spec):
     os.makedirs(os.path.join(LEAN, "Audit"), exist_ok=True)
     audit = os.path.join(LEAN, "Audit", f"{ctx.pid}.lean")
     with open(audit, "w") as f:
-        f.write(f"import {mod}\n")
-        if ns:
-            f.write(f"open {ns}\n")
+        for m_ in mods:
+            f.write(f"import {m_}\n")
+        for n_ in (ns if isinstance(ns, list) else [ns]):
+            if n_:
+                f.write(f"open {n_}\n")
         for t in names:
             f.write(f"#print axioms {t}\n")
     discharged = 0
@@ -152,12 +158,19 @@ def prove(ctx, spec):
                 discharged += 1
     if ctx.tier == "thorough" and rc == 0 and not os.environ.get("VERIF_SKIP_LEANCHECKER"):
         with LakeLock():
-            rc3, out3 = sh(["lake", "env", "leanchecker", mod], cwd=LEAN, timeout=3600)
+            rc3, out3 = sh(["lake", "env", "leanchecker"] + mods, cwd=LEAN, timeout=3600)
         if rc3 != 0:
             ctx.obligation_failures.append({"kind": "leanchecker", "detail": tail(out3, 30)})
         else:
-            ctx.notes.append("leanchecker re-checked " + mod)
+            ctx.notes.append("leanchecker re-checked " + " ".join(mods))
     return len(names), discharged, names, axioms_used
+
+
+def parts_of(spec):
+    """A check may tie several (driver, harness) pairs to the code; default: the single top-level pair."""
+    if spec.get("parts"):
+        return spec["parts"]
+    return [{k: spec[k] for k in ("driver", "harness", "harness_args", "harness_timeout", "race", "gomemlimit") if k in spec}]
 
 
 def tail(s, n):
@@ -243,7 +256,33 @@ def write_replay(ctx, n, obj):
 
 
 def run_tie(ctx, spec, replay_file=None):
-    """Runs harness and driver. Returns dict with mismatches, findings, stats."""
+    """Runs every (driver, harness) part and merges the results."""
+    tot = {"mismatches": [], "findings": [], "stats": {}, "lines": 0, "harness_error": None, "cases": 0, "mismatch_cases": 0}
+    for i, part in enumerate(parts_of(spec)):
+        if replay_file and os.environ.get("VERIF_REPLAY_PART") not in (None, str(i), part.get("harness")):
+            continue
+        ctx.part = i
+        r = run_tie_part(ctx, part, replay_file)
+        tot["mismatches"] += [dict(m, part=part.get("harness")) for m in r["mismatches"]]
+        tot["findings"] += r["findings"]
+        tot["lines"] += r["lines"]
+        tot["cases"] += r.get("cases", 0)
+        tot["mismatch_cases"] += r.get("mismatch_cases", 0)
+        if r["harness_error"]:
+            tot["harness_error"] = (tot["harness_error"] or "") + f"[{part.get('harness')}] " + r["harness_error"] + "\n"
+        st, ts = r.get("stats", {}), tot["stats"]
+        if st:
+            ts["evaluations"] = ts.get("evaluations", 0) + st.get("evaluations", 0)
+            ts["distinct_nontrivial"] = ts.get("distinct_nontrivial", 0) + st.get("distinct_nontrivial", 0)
+            ts["rule"] = (ts.get("rule", "") + " || " if ts.get("rule") else "") + (st.get("rule") or "")
+            ts["samples"] = (ts.get("samples") or []) + (st.get("samples") or [])[:2]
+            ts.setdefault("histogram", {}).update({(part.get("harness", "") + ":" + k if len(parts_of(spec)) > 1 else k): v for k, v in (st.get("histogram") or {}).items()})
+            ts.setdefault("extra", {}).update(st.get("extra") or {})
+    return tot
+
+
+def run_tie_part(ctx, spec, replay_file=None):
+    """Runs one harness and its driver. Returns dict with mismatches, findings, stats."""
     res = {"mismatches": [], "findings": [], "stats": {}, "lines": 0, "harness_error": None}
     if not spec.get("harness"):
         return res
@@ -251,7 +290,7 @@ def run_tie(ctx, spec, replay_file=None):
     if binp is None:
         res["harness_error"] = "harness does not build against /repo's working tree:\n" + tail(out, 40)
         return res
-    outdir = os.path.join(ctx.scratch, "out")
+    outdir = os.path.join(ctx.scratch, f"out{getattr(ctx, 'part', 0)}")
     os.makedirs(outdir, exist_ok=True)
     args = [binp, "--seed", str(ctx.seed), "--tier", ctx.tier, "--out", outdir]
     if replay_file:
@@ -346,12 +385,12 @@ def decide(ctx, spec, proof, tie):
     if violations == 0:
         broken = []
         if ctx.obligation_failures:
-            broken.append({"theorem_or_correspondence": "proof obligations of " + spec["lean_props"],
+            broken.append({"theorem_or_correspondence": "proof obligations of " + str(spec["lean_props"]),
                            "failures": ctx.obligation_failures})
         if tie.get("harness_error"):
             broken.append({"theorem_or_correspondence": "correspondence harness", "failures": tie["harness_error"]})
         if tie["mismatches"]:
-            broken.append({"theorem_or_correspondence": f"correspondence {spec.get('driver')} vs implementation",
+            broken.append({"theorem_or_correspondence": "correspondence Lean driver(s) " + ",".join(str(p_.get("driver")) for p_ in parts_of(spec)) + " vs implementation",
                            "failures": tie["mismatches"]})
         if broken:
             n += 1
@@ -363,14 +402,18 @@ def decide(ctx, spec, proof, tie):
     return violations
 
 
+def _mods(spec):
+    return " ".join(spec["lean_props"]) if isinstance(spec["lean_props"], list) else spec["lean_props"]
+
+
 def write_evidence(ctx, spec, proof, tie, violations):
     obligations, discharged, names, axioms_used = proof
     st = tie.get("stats", {})
     cov = {
         "obligations": obligations,
         "discharged": discharged,
-        "checker_cmd": f"cd lean && lake build {spec['lean_props']} && lake env lean Audit/{ctx.pid}.lean" +
-                       (f" && lake env leanchecker {spec['lean_props']}" if ctx.tier == "thorough" else ""),
+        "checker_cmd": f"cd lean && lake build {_mods(spec)} && lake env lean Audit/{ctx.pid}.lean" +
+                       (f" && lake env leanchecker {_mods(spec)}" if ctx.tier == "thorough" else ""),
         "trusted_base": ["Lean 4.33.0 kernel", "axioms: propext, Classical.choice, Quot.sound (per-theorem list in axioms_used)"] +
                         spec.get("trusted_base", []),
         "theorems": names,
